@@ -26,7 +26,7 @@ AppsRT  == {<<"F", "I">>, <<"I", "F">>}
 \* a small alphabet with the deprecated steps, for programs of three steps
 AlphaLegacy3 == {[a |-> "lpop", flags |-> {1}], [a |-> "lpop", flags |-> {1, 3}], [a |-> "lpush", flags |-> {2}],
                  [a |-> "push", args |-> <<2>>], [a |-> "pop", args |-> <<1>>], [a |-> "flip", args |-> <<1>>],
-                 [a |-> "roll", m |-> 2, n |-> 1], [a |-> "add", e |-> 1, c |-> 1]}
+                 [a |-> "roll", m |-> 2, n |-> 1], [a |-> "add", e |-> 1, c |-> 1], [a |-> "swap"], [a |-> "drop"]}
 \* three-step programs over index lists with repeats (a wrong stack content only shows when a
 \* later step reads it)
 MidLists == {<<1>>, <<3>>, <<1, 2>>, <<2, 1>>, <<3, 3>>, <<1, 1, 2>>}
